@@ -138,6 +138,7 @@ def run_case(case):
 def cases(tier):
     grids = [("8", "12", "[0.2, 0.3, 0.4]"), ("randomQ_7", "cube3D_9", "[0.15, 0.3, 0.35]"), ("cube4D_17", "ico_5", "[0.3, 0.5]")]
     mols = ["H2O", "glucose", "CHFClBr"]
+    grids.append(("cube4D_40", "ico_4", "[0.3, 0.6, 0.9]"))      # more than 32 rotations; radii not in "hash order"
     if tier == "thorough":
         grids += [("cube4D_40", "ico_20", "[0.2, 0.3, 0.4, 0.6]"), ("randomQ_12", "randomS_15", "[0.25, 0.5]"),
                   ("1", "ico_42", "[0.2, 0.3]")]
